@@ -727,6 +727,11 @@ func (e StdEng) checkTwoFloatComplexTensors(a, b Tensor) (ad, bd DenseTensor, er
 	if bd, err = getFloatComplexDenseTensor(b); err != nil {
 		return nil, nil, errors.Wrap(err, "checkTwoTensors expects b to be be a DenseTensor")
 	}
+	if !ad.DataOrder().IsContiguous() || !bd.DataOrder().IsContiguous() {
+		// BLAS reads the backing arrays directly (a pending lazy transpose is expressed
+		// through its flags); a view with gaps is not the matrix BLAS would be told about
+		return nil, nil, errors.Errorf(nonContiguousBLAS)
+	}
 	return
 }
 
@@ -754,5 +759,10 @@ func (e StdEng) checkThreeFloatComplexTensors(a, b, ret Tensor) (ad, bd, retVal 
 	if retVal, err = getFloatComplexDenseTensor(ret); err != nil {
 		return nil, nil, nil, errors.Wrap(err, "checkTwoTensors expects retVal to be be a DenseTensor")
 	}
+	if !ad.DataOrder().IsContiguous() || !bd.DataOrder().IsContiguous() || !retVal.DataOrder().IsContiguous() {
+		return nil, nil, nil, errors.Errorf(nonContiguousBLAS)
+	}
 	return
 }
+
+const nonContiguousBLAS = "BLAS routines read the backing arrays directly: Materialize() non-contiguous views first"
